@@ -255,6 +255,45 @@ def get (cfg : Cfg) (s : Shard) (id time : Nat) : Shard × GetRes :=
       else if cfg.crc body != b.crc then (eraseKnown s b, .badCrc)
       else (s, .ok body)
 
+/-! ### the caller's scratch pad
+
+  `GetBucket(id, time, scratchPad *[]byte)` reads into the caller's pad: `*scratchPad = (*scratchPad)[0:size]` when the capacity
+  suffices, else `make([]byte, size)`, then `ReadAt` overwrites all `size` bytes and that slice is returned. The agent reuses ONE
+  pad for all its reads, so the pad holds the bytes of the previous second. `pad` below = the contents of the pad's whole
+  capacity. `get` (above) returns the bytes read as a value; `getP` threads the pad exactly as the code does and
+  Props/C09 `getP_eq_get` proves that the two agree for EVERY previous pad contents. -/
+
+/-- `(*scratchPad)[0:n]` or `make([]byte, n)` -/
+def resliced (pad : Bytes) (n : Nat) : Bytes :=
+  if pad.length ≥ n then pad.take n else List.replicate n 0
+
+/-- `ReadAt(buf, …)` that delivers `src`: the first `src.length` bytes of `buf` are overwritten -/
+def overwrite (buf src : Bytes) : Bytes := src.take buf.length ++ buf.drop src.length
+
+/-- the pad (whole capacity) after a read of `body` into it -/
+def padAfter (pad body : Bytes) : Bytes :=
+  if pad.length ≥ body.length then body ++ pad.drop body.length else body
+
+inductive GetVariant
+  | asIs          -- the code as it is
+  | emptyFastPath -- seeded variant: `if sec.size == 0 { return *scratchPad, nil }` before the pad is resliced
+deriving DecidableEq, Repr
+
+/-- `GetBucket` with the caller's scratch pad; returns the new state, the result and the pad afterwards -/
+def getP (v : GetVariant) (cfg : Cfg) (s : Shard) (id time : Nat) (pad : Bytes) : Shard × GetRes × Bytes :=
+  match findB s.known id with
+  | none => (s, .unknown, pad)
+  | some b =>
+    if b.time != time then (s, .wrongTime, pad)
+    else if v == .emptyFastPath && b.size == 0 then (s, .ok pad, pad)
+    else
+      let body := readBody (fileBytes s.disk b.file) b
+      if body.length < b.size then (eraseKnown s b, .readErr, padAfter pad (List.replicate b.size 0))
+      else
+        let out := overwrite (resliced pad b.size) body
+        if cfg.crc out != b.crc then (eraseKnown s b, .badCrc, padAfter pad out)
+        else (s, .ok out, padAfter pad out)
+
 /-! ### ReadNextTailSecond -/
 
 inductive ReadRes
